@@ -21,7 +21,7 @@ CHECKS = {
             "DESIGN.md §8 C02"),
     "C03": (True,
             "Legal transitions of a stored mint quote as a precondition of every UpdateMintQuoteState call site (UNPAID->PAID only when the backend reports settled, PAID->PENDING->ISSUED, revert to the pre-signing state); MintTokens: success implies the quote was PAID (after the poll) before and ISSUED after, outputs <= quote amount, signatures stored; an ISSUED quote is always refused; the invoice watcher re-reads the quote after its blocking wait (yield point) and only moves UNPAID to PAID. RELY/GUARANTEE TIER: MintTokens and GetMintQuoteState are verified a second time with other requests acting (within the rely: an issued quote stays issued, quotes and their amounts stay, signatures stay) before every store / Lightning call; the legal-transition precondition of every state write and the guarantee 'my own write is a step the rely allows' are obligations there. Four of them FAIL and are listed as known findings: both functions write a state they computed from an earlier read (two concurrent mint requests both issue; a poll writes PAID over ISSUED) - shown by deterministic interleaving replays.",
-            "Sequential histories, the yield point of the invoice watcher, and the rely/guarantee tier for concurrent mint requests and polls (its failing obligations are open known findings, not proofs). NUT-20 signature clause: see evidence (claimed only when the nut20 contracts discharge). Assumed: storage.MintDB and lightning.Client contracts, Schnorr unforgeability not decided. Rely/guarantee tier as for C01.",
+            "Sequential histories, the yield point of the invoice watcher, and the rely/guarantee tier for concurrent mint requests and polls (its failing obligations are open known findings, not proofs). NUT-20: nut20.VerifyMintQuoteSignature / SignMintQuote proved (loop invariant) to check / sign SHA-256 of the quote id followed by the B_ of EVERY output in request order; MintTokens proved to issue a quote whose stored record has a public key only after that verifier accepted the request's hex signature for (request quote id, request outputs, stored key); RequestMintQuote stores the key the request named (and none otherwise). Assumed: storage.MintDB and lightning.Client contracts, Schnorr unforgeability not decided. Rely/guarantee tier as for C01.",
             "DESIGN.md §8 C03"),
     "C04": (True,
             "verifyProofs proved to establish, for every input of Swap and MeltTokens: secret length <= 512, keyset id known in the map of ALL keysets, amount is a key of THAT keyset, C is hex and parses as a point, and pt(C) = k(id, amount) * hash_to_curve(secret) - the key taken from exactly (id, amount) of the proof, never from the active keyset; crypto.verify/Verify proved equivalent to that equation from the algebraic contracts of the secp256k1 calls they make; HashToCurve proved equal to the NUT-00 spec function (loop invariant over the counter search).",
@@ -72,8 +72,8 @@ CHECKS = {
             "NOT decided: 'a send of no more than balance minus fees always succeeds' (completeness of a greedy search; not expressible as a cheap contract), that the proofs handed out are unspent at the mint (mint-side state), removal from the spendable store on every path, the composition Send -> recipient Receive (two parties). Assumed: A-FEESUM (ppk sums and count*ppk below 2^63: no wrap in the fee arithmetic), amounts below 2^60, wallet proof getters return newly built slices.",
             "DESIGN.md §8 C18"),
     "C19": (True,
-            "PARTIAL. Ghost model of the NUT-13 counters (stored counter per keyset, end of the last derived range, 'may be signed up to'). Proved for all inputs on the paths under contract: createBlindedMessages takes the counters old..old+len-1 in order and advances the caller's counter by exactly len (loop invariant; generateDeterministicSecret proved to derive secret and blinding factor from the two different children 0 and 1 of counter'); wallet.MintTokens and swapToSend (with and without spending condition, with and without change) start deriving at the stored counter, never below anything that may already be signed (call-site obligation), and on success leave the stored counter past everything they had signed - incl. the exact increment arithmetic over send and change outputs and the uint32 conversions; getActiveKeyset (keyset rotation, fee change) never moves a stored counter backwards; Restore saves the counter only after a batch with signatures and then sets it to exactly the scan position, starting from 0; stored counters are never advanced beyond the derived range (no gaps: @nogap); Melt derives its NUT-08 blank outputs from the counter as stored after the proof selection (which may swap and advance it); Receive, ReceiveHTLC and ReclaimUnspentProofs advance the request keyset's counter by exactly the number of outputs of the swap request (increment only).",
-            "NOT covered (stated): that createSwapRequest (Receive paths, reclaim) derives from the stored counter of the same keyset it later advances (interior pointer into the mint's active keyset: outside the modelled subset), swapToTrusted, the advance of Melt / CheckMeltQuoteState by the number of change signatures (the ghost 'may be signed' over-approximates there), wallet crash points between POST and counter increment, restore completeness over whole histories (a multi-party, whole-history statement), interleavings of wallet operations (Receive derives outside the wallet lock). Assumed: bolt implements the counter part of storage.WalletDB (Increment adds, SaveKeyset writes the record's counter, GetKeysetCounter reads it); A-COUNTER: a counter range never crosses 2^31 (hardened index); A-KEYSET: keyset ids are 8 bytes and stored public keys are non-nil; history induction only over successful (fault-free) operations, as the property states.",
+            "PARTIAL. Ghost model of the NUT-13 counters (stored counter per keyset, end of the last derived range, 'may be signed up to'). Proved for all inputs on the paths under contract: createBlindedMessages takes the counters old..old+len-1 in order and advances the caller's counter by exactly len (loop invariant; generateDeterministicSecret proved to derive secret and blinding factor from the two different children 0 and 1 of counter'); wallet.MintTokens and swapToSend (with and without spending condition, with and without change) start deriving at the stored counter, never below anything that may already be signed (call-site obligation), and on success leave the stored counter past everything they had signed - incl. the exact increment arithmetic over send and change outputs and the uint32 conversions; getActiveKeyset (keyset rotation, fee change) never moves a stored counter backwards; Restore saves the counter only after a batch with signatures and then sets it to exactly the scan position, starting from 0; stored counters are never advanced beyond the derived range (no gaps: @nogap); Melt derives its NUT-08 blank outputs from the counter as stored after the proof selection (which may swap and advance it); RECEIVE PATHS (round 4): createSwapRequest proved to derive its outputs from the STORED counter of exactly the mint's active keyset, never below anything that may be signed, and to hand back a request whose keyset is that keyset (interior pointer linked to the enclosing walletMint field, see DESIGN 00.9); swap raises 'may be signed' (PostSwap); Receive, ReceiveHTLC and ReclaimUnspentProofs advance that keyset's counter by exactly the number of outputs of the request (the nut11/nut14 output-witness helpers are proved to return the same list) and on success leave every stored counter past everything that may be signed (@past); swapProofs (melt at one mint, mint at the other) keeps it. Restore additionally saves the scan position after EVERY batch the mint had signatures for, whatever the state of the proofs (loop invariant 'batches with signatures == saves', ghost counters on PostRestore / IncrementKeysetCounter). One obligation pair FAILS and is an open known finding: swapToTrusted on a SIG_ALL token has outputs signed at the token's mint and never advances that counter (replayed on the real code).",
+            "NOT covered (stated): the advance of Melt / CheckMeltQuoteState by the number of change signatures (the ghost 'may be signed' over-approximates there), wallet crash points between POST and counter increment, restore completeness over whole histories (a multi-party, whole-history statement), interleavings of wallet operations (Receive derives outside the wallet lock). Assumed: bolt implements the counter part of storage.WalletDB (Increment adds, SaveKeyset writes the record's counter, GetKeysetCounter reads it) - kept honest by the BOUNDED conformance harness bounded/wdbconf on the real bbolt store (labelled bounded, not proof); A-NEWMINT: AddMint (called only for a mint not in w.mints) saves keyset records over ids that have no stored/derived/signed counter yet (assumed contract; the swapToTrusted finding is a history where it is false); A-COUNTER: a counter range never crosses 2^31 (hardened index); A-KEYSET: keyset ids are 8 bytes and stored public keys are non-nil; history induction only over successful (fault-free) operations, as the property states.",
             "DESIGN.md §8 C19"),
     "C20": (True,
             "The response writer is ghost state (status, body). All 13 handlers of mint/server.go proved: the status is 200 or 400; when the mint operation was executed and refused, the answer is 400; (non-cached handlers) 200 only after exactly one successful execution; every error handed to writeErr is a cashu error value or a non-nil *cashu.Error that does NOT carry an internal (DB / Lightning backend) code - proved at every writeErr call site from error-shape postconditions that are themselves proved on every mint API function and helper (Swap, MintTokens, MeltTokens, Request/GetMintQuote*, Request/GetMeltQuote*, ProofsStateCheck, RestoreSignatures, verifyProofs, verifyBlindedMessages, signBlindedMessages, settle*, nut11/nut14 verifiers and parsers, decodeJsonReqBody); writeErr proved to answer 400 with the JSON of exactly that error. NUT-19 cache (swap and mint/bolt11): Cache.Get/Set proved against a map model (hit <=> key present, other keys untouched, stored value = given bytes); the key handed to Get and Set is method + URL + body bytes (call-site clauses); the operation runs only after a decode success and a cache miss; Set is reached only after the operation succeeded; a hit is answered with the cached bytes without executing; a refusal leaves the cache's key set unchanged; the bytes cached are the bytes written.",
